@@ -86,6 +86,18 @@ ITEMS = [
          ensures=[('toggles_key_position', 'final(self).containers@ =~= toggle_top(old(self).containers@)'),
                   SAME_BUT_CONTAINERS], canaries=['toggles_key_position']),
 
+    # F44: an alias that is expanded is followed by its replayed node, which takes the alias's place in the key/value phase of the enclosing
+    # mapping; the phase recorded for the token itself is taken back (handle_alias toggled it, this toggles it again)
+    dict(src=B, path='impl BudgetEnforcer/fn alias_will_be_replayed', props=P, optional=True,
+         proofs=[dict(at='start', text='if self.inv() { lemma_toggle(self.containers@); }')],
+         ensures=[('C07:the_phase_recorded_for_an_alias_token_is_taken_back_when_its_node_is_replayed_so_a_later_merge_key_is_still_a_key',
+                   'final(self).containers@ =~= toggle_top(old(self).containers@) && toggle_top(toggle_top(old(self).containers@)) =~= old(self).containers@'),
+                  ('keeps_the_enforcer_consistent', 'old(self).inv() ==> final(self).inv()'),
+                  ('in_terms_of_the_independent_count', 'old(self).inv() ==> final(self).abs().stack =~= node_done(old(self).abs().stack)'),
+                  ('counts_are_untouched', 'final(self).abs() == (Abs { stack: final(self).abs().stack, ..old(self).abs() })'),
+                  SAME_BUT_CONTAINERS],
+         canaries=['C07:the_phase_recorded_for_an_alias_token_is_taken_back_when_its_node_is_replayed_so_a_later_merge_key_is_still_a_key']),
+
     dict(src=B, path='impl BudgetEnforcer/fn entering_container', props=P,
          ensures=[('effect', 'final(self).containers@ =~= enter_stack(old(self).containers@) && r == enter_result(old(self).containers@)'),
                   SAME_BUT_CONTAINERS], canaries=['effect']),
